@@ -66,7 +66,7 @@ func Spec(tier string, seed int64, workers int) progeng.Spec {
 	if tier == "thorough" {
 		sp.Cases, sp.Budget, tapes = 4000, 45*time.Minute, 60
 	} else {
-		sp.Cases, sp.Budget = 60, 3*time.Minute
+		sp.Cases, sp.Budget = 40, 2*time.Minute
 	}
 	sp.Variants = []progeng.Variant{{Name: "R", Tags: "yieldr", Tapes: tapes}}
 	sp.Generate = func(seed int64, i int) *progeng.Prog {
